@@ -6,6 +6,7 @@ import (
 	"crypto/rand"
 	"encoding/base64"
 	"encoding/json"
+	"errors"
 	"fmt"
 	"io"
 	"log/slog"
@@ -245,6 +246,19 @@ func indexIngest(repo Repo, index *types.Index, conf config.Config, locked bool)
 			}
 			dig := digest.Canonical.FromBytes(respRaw)
 			bc, _, err := repo.BlobCreate(BlobWithDigest(dig))
+			if errors.Is(err, types.ErrBlobExists) {
+				// the response was already written, by an earlier conversion that was interrupted or by another subject with the same list
+				index.AddDesc(types.Descriptor{
+					MediaType: types.MediaTypeOCI1ManifestList,
+					Digest:    dig,
+					Size:      int64(len(respRaw)),
+					Annotations: map[string]string{
+						types.AnnotReferrerSubject: subj,
+					},
+				})
+				mod = true
+				continue
+			}
 			if err != nil {
 				return mod, err
 			}
